@@ -181,7 +181,7 @@ pub fn run(ctx: &Ctx) -> i32 {
     run_workload(ctx, &mut acc, "generated", n, |k, rng, acc| {
         let mut cfg = if k % 4 == 0 { Cfg::hostile() } else { Cfg::normal() };
         if cfg.pragma.is_some() {
-            cfg.pragma = Some(rng.ps(&["0.8.17", "0.7.6", "0.8.3", "^0.6.12", "0.8.4"]).to_string());
+            cfg.pragma = Some(rng.ps(&["0.8.17", "0.7.6", "0.8.3", "^0.6.12", "0.8.4", ">=0.7.0 <0.9.0", ">=0.8.0 <0.8.4", ">= 0.6.0 < 0.8.5", "0.7.6 || ^0.8.4", "^0.7.0 || ^0.8.0"]).to_string());
             cfg.safemath = rng.chance(1, 3);
         }
         if let Some(tp) = progsrc::generated(k, rng, cfg, acc) {
